@@ -363,9 +363,6 @@ Proof. intros i. rewrite masked_at, mask_el_diag. lra. Qed.
 Lemma masked_off v i j : i <> j -> mat_at (masked RN v) i j = mat_at v i j.
 Proof. intros H. rewrite masked_at, mask_el_off by exact H. lra. Qed.
 
-(* the invariant: no self-weight, no self-delay *)
-Definition lat_inv (s : lat RN) : Prop :=
-  diag_zero (l_w RN s) /\ match l_d RN s with Some d => diag_zero d | None => True end.
 
 Lemma lat_step_inv s o : lat_inv s -> lat_inv (lat_step RN s o).
 Proof.
@@ -952,8 +949,6 @@ Proof.
     + intros i j Hi Hj. unfold mat_at. rewrite (nth_map_lt _ _ _ 0) by lia. rewrite nth_repeat' by lia. reflexivity.
 Qed.
 
-Definition agree (n : nat) (m : list (list R)) (f : nat -> nat -> R) : Prop :=
-  forall i j, (i < n)%nat -> (j < n)%nat -> mat_at m i j = f i j.
 
 Lemma lat_step_n s o : l_n RN (lat_step RN s o) = l_n RN s.
 Proof.
@@ -1085,7 +1080,6 @@ Proof. unfold bshape. cbn -[Nat.eqb prodn Nat.mul Z.to_nat]. eqb_cases. Qed.
 (* Outside the property's quantifier (empty output), recorded because it is how the code behaves: the constructor only
    checks that the PRODUCT Hout*Wout handed to the synapse is positive, so H = W = 1 with a 3x3 kernel is accepted,
    outshape advertises (F, -1, -1) and every forward raises. *)
-Definition g_neg : geom := mkG 1 1 1 1 3 3 1 1 0 0 1 1.
 Theorem conv_ctor_accepts_negative_output :
   exists c, conv_ctor RN g_neg 1 [] None = Ok c /\ outH RN g_neg = (-1)%Z /\ outW RN g_neg = (-1)%Z /\
             forall xs, conv_forward RN c [1; 1; 1; 1]%nat xs = Err ERuntime.
@@ -1158,6 +1152,10 @@ Proof.
     apply Rsum_ext; intros i Hi. assert (Hi' : (i < length m)%nat) by (rewrite Hm; exact Hi).
     unfold column. rewrite (nth_map_lt _ _ _ []) by exact Hi'. reflexivity. }
   destruct b as [bv|]; simpl bias_at.
-  - pose proof (Hb bv eq_refl) as Hlb. rn_simpl. rewrite (map2_nth _ _ _ _ 0 0) by lia. rewrite Hy. reflexivity.
-  - rewrite Hy. lra.
+  - pose proof (Hb bv eq_refl) as Hlb. rn_simpl.
+    rewrite (map2_nth _ _ _ _ 0 0); [| change (o < length y)%nat; rewrite Hly; exact Ho | rewrite Hlb; exact Ho].
+    change (nth o y 0 + nth o bv 0 = Rsum I (fun i => nth o (nth i m []) 0 * nth i (nth o W []) 0) + nth o bv 0).
+    rewrite Hy. reflexivity.
+  - change (nth o y 0 = Rsum I (fun i => nth o (nth i m []) 0 * nth i (nth o W []) 0) + 0).
+    rewrite Hy. lra.
 Qed.
